@@ -175,8 +175,24 @@ class ChunksIt:
         self.root, self.proj, self.n, self.pos, self.total = root, proj, n, pos, total
 
 
+class Either:
+    """Payload of an undecided two-variant value (Option / Result / ControlFlow): `first` is what variant 0 carries
+    (None / Ok / Continue), `second` what variant 1 carries (Some / Err / Break)."""
+    __slots__ = ('first', 'second')
+
+    def __init__(self, first, second):
+        self.first, self.second = first, second
+
+    def pick(self, variant):
+        return self.second if variant else self.first
+
+    def __repr__(self):
+        return 'Either(%r | %r)' % (self.first, self.second)
+
+
 class Opt:
-    """Option value: tag in {'some','none',None(unknown)}, payload abstract value."""
+    """Two-variant value by discriminant: tag 'none' = variant 0 (None / Ok / Continue), 'some' = variant 1
+    (Some / Err / Break), None = undecided; payload abstract value (an Either when the variants carry different things)."""
     __slots__ = ('tag', 'payload', 'label')
 
     def __init__(self, tag, payload, label=None):
@@ -618,7 +634,10 @@ class Frame:
             if isinstance(v, Opt) and e[0] == 'dc':
                 continue
             if isinstance(v, Opt) and e[0] == 'f':
-                v = v.payload
+                pl = v.payload
+                if isinstance(pl, Either):
+                    pl = pl.pick(1 if v.tag == 'some' else 0) if v.tag in ('some', 'none') else TOP
+                v = pl
                 continue
             if isinstance(v, Agg):
                 if e[0] == 'f':
@@ -986,6 +1005,56 @@ class Interp:
             else:
                 raise NotDerivable('unsupported terminator %s' % k, t.get('span'))
 
+    def fork_alternatives(self, fr, t, pth, alts):
+        """alts = [(value, labels, events)]: the call `t` returns one of the values; the labels / events of the
+        computation that produced it (e.g. an interpreted closure with several paths) become part of the path."""
+        if self._fork_ctx is None or t['target'] is None or not alts:
+            return False
+        work, _results = self._fork_ctx
+        base_labels, base_events = list(pth.labels), list(pth.events)
+        for v, labs, evs in alts[1:]:
+            nf = self._clone_frame(fr)
+            nf.storev(t['dest'], v)
+            np_ = Path()
+            np_.labels = base_labels + list(labs)
+            np_.events = base_events + list(evs)
+            work.append((nf, t['target'], np_))
+        v, labs, evs = alts[0]
+        pth.labels = base_labels + list(labs)
+        pth.events.extend(evs)
+        fr.storev(t['dest'], v)
+        return True
+
+    def _call_closure_paths(self, fr, path, captures, args, where):
+        """All non-diverging paths of a closure (no write-back of captured state): [(Path, return value)]."""
+        cbody = self.facts.body(path)
+        if cbody is None:
+            raise NotDerivable('closure body not available', where)
+        caps = Agg([fr._project(fr.store.get(v.root, TOP), v.proj) if isinstance(v, Ref) else v for v in captures.items], captures.kind)
+        # by-value snapshot of captured references is enough for closures that only read their captures
+        sub = self._sub()
+        ref_caps = [isinstance(v, Ref) for v in captures.items]
+        extra = {}
+        caps2 = []
+        for k, v in enumerate(captures.items):
+            if isinstance(v, Ref):
+                key = ('up', k, len(fr.store), 'ro')
+                val = fr._project(fr.store.get(v.root, TOP), v.proj)
+                for _ in range(8):
+                    if not isinstance(val, Ref):
+                        break
+                    val = fr._project(fr.store.get(val.root, TOP), val.proj)
+                extra[key] = val
+                caps2.append(Ref(key, []))
+            else:
+                caps2.append(v)
+        caps2 = Agg(caps2, captures.kind)
+        first = ('byref', caps2) if cbody.local_ty(1).startswith('&') else caps2
+        results = sub.run(path, [first] + list(args), extra=extra)
+        self.steps = sub.steps
+        self.call_sites += sub.call_sites
+        return [(r[0], r[1]) for r in results if not (isinstance(r[1], tuple) and r[1] and r[1][0] == 'diverges')]
+
     def fork_values(self, fr, t, pth, values, label):
         """The call `t` may return any of `values` (an over-approximation decided by the transfer function):
         continue this path with the first and fork one path per further value."""
@@ -1009,7 +1078,10 @@ class Interp:
         if isinstance(dv, tuple) and dv[0] == 'discr' and v in (0, 1):
             o = dv[1]
             place = dv[2]
-            fr.storev(place, Opt('some' if v == 1 else 'none', o.payload, o.label))
+            pl = o.payload
+            if isinstance(pl, Either):
+                pl = pl.pick(v)
+            fr.storev(place, Opt('some' if v == 1 else 'none', pl, o.label))
 
     # ------------------------------------------------------------ statements
     def _assign(self, fr, s):
@@ -1156,6 +1228,8 @@ class Interp:
                 fr.storev(dst, ('discr', v, rv['place']))
             elif isinstance(v, Agg) and v.kind and isinstance(v.kind[0], str) and v.kind[0].endswith('cmp::Ordering') and v.kind[1] in ('Less', 'Equal', 'Greater'):
                 fr.storev(dst, Int({'Less': 255, 'Equal': 0, 'Greater': 1}[v.kind[1]], 8))
+            elif isinstance(v, Agg) and v.kind and isinstance(v.kind[0], str) and (v.kind[0].endswith('result::Result') or v.kind[0].endswith('ops::ControlFlow')) and v.kind[1] in ('Ok', 'Err', 'Continue', 'Break'):
+                fr.storev(dst, Int({'Ok': 0, 'Err': 1, 'Continue': 0, 'Break': 1}[v.kind[1]]))
             else:
                 fr.storev(dst, TOP)
         else:
